@@ -78,6 +78,7 @@ class Exec:
         self.entry_state = None
         self.entry_env = None
         self.deferred = []
+        self.panic_edges = []
         self.callsite = 0
         self.rets = []
         self.pkg = func.pkg or (contract.pkg if contract else None)
@@ -200,6 +201,8 @@ class Exec:
                         continue
                     seen.add(x)
                     stk.extend(f.blocks[x]['succs'])
+                if f.recover is not None and f.recover >= 0:
+                    seen.add(f.recover)     # panic edges
                 rs[b['idx']] = seen
             vc.reach_sets = rs
         order = f.topo_order()
@@ -243,6 +246,21 @@ class Exec:
                 vc.cur_block = b
             self.exec_block(blk, b in loops)
             self.named_out[b] = self.named
+        if self.panic_edges:
+            rb = f.blocks[f.recover]
+            if rb['succs'] or rb['preds']:
+                raise Unsupported('recover block with control flow in ' + short_fn(self.prog, f.name))
+            conds = [c for c, _ in self.panic_edges]
+            if len(conds) == 1:
+                self.reach, self.st = conds[0], self.panic_edges[0][1].copy()
+            else:
+                self.reach = vc.define(self.nm('reach$recover'), 'Bool', or_(*conds))
+                self.st = self.merge_states(f.recover, conds, [s_ for _, s_ in self.panic_edges])
+            self.cur = f.recover
+            self.named = {}
+            if self.top is self:
+                vc.cur_block = f.recover
+            self.exec_block(rb, False)
         return self.rets
 
     def merge(self, b, ins):
@@ -663,6 +681,8 @@ class Exec:
             if cc is not None and cc.recv_name and names:
                 names = [cc.recv_name] + names[1:]
             return names
+        if isinstance(cc.key, tuple) and cc.key[0] == 'functype':
+            return list(cc.param_names or [])
         # interface contract: receiver + declared parameter names
         return [cc.recv_name or 'self'] + list(cc.param_names or [])
 
@@ -670,6 +690,8 @@ class Exec:
         if cf is not None:
             return [p['t'] for p in cf.params]
         its, m = cc.key
+        if its == 'functype':
+            return list(self.prog.under(m)['params'])
         sig = None
         for mm in self.prog.under(its)['methods']:
             if mm['name'] == m:
@@ -712,6 +734,9 @@ class Exec:
             return (fn['n'], None, 'builtin')
         if 'static' in call:
             return self.resolve_static(call['static'])
+        fc = cs.functypes.get(fn.get('t'))
+        if fc is not None:
+            return ('value of ' + fn['t'], fc, 'contract')
         return (None, None, 'dynamic')
 
     def iface_has(self, its, k_its, m):
@@ -799,12 +824,69 @@ class Exec:
     def i_Panic(self, ins, blk):
         self.oblige('panic', 'explicit panic', self.reach, 'false', ['C03'], ins.get('line', 0))
 
+    # defer/recover: supported for one closure deferred in the entry block of the function under verification.
+    # A call that may panic forks: the normal continuation, and a panic path on which the deferred closure runs
+    # with recover() != nil and control resumes in the function's recover block (go/ssa's f.Recover).
     def i_RunDefers(self, ins, blk):
         if self.deferred:
-            raise Unsupported('defer in ' + short_fn(self.prog, self.f.name))
+            self.run_deferred(None)
 
     def i_Defer(self, ins, blk):
-        raise Unsupported('defer in ' + short_fn(self.prog, self.f.name))
+        call = ins['call']
+        if blk['idx'] != 0 or self.top is not self or 'static' not in call or call['args'] or self.deferred:
+            raise Unsupported('defer in ' + short_fn(self.prog, self.f.name))
+        clo = self.op(call['fn'])
+        if clo.term not in getattr(self.top, 'closures', {}):
+            raise Unsupported('defer of a non-literal closure in ' + short_fn(self.prog, self.f.name))
+        self.deferred.append((call['static'], clo))
+
+    def recovers(self):
+        """the deferred closure calls recover() in its entry block"""
+        if not self.deferred or self.f.recover is None or self.f.recover < 0:
+            return False
+        cf = self.prog.funcs.get(self.deferred[0][0])
+        if cf is None or not cf.blocks:
+            return False
+        for i in cf.blocks[0]['instrs']:
+            if i['op'] == 'Call' and i['call']['fn'].get('k') == 'builtin' and i['call']['fn'].get('n') == 'recover':
+                return True
+        return False
+
+    def run_deferred(self, recover_val):
+        vc = self.vc
+        callee, clo = self.deferred[0]
+        cf = self.prog.funcs[callee]
+        fn_, binds = self.top.closures[clo.term]
+        k = vc.site('inl')
+        sub = Exec(vc, cf, None, prefix=self.prefix + 'd%d.' % k, depth=self.depth + 1, top=self.top)
+        sub.parent = self
+        for fv, b in zip(cf.freevars, binds):
+            sub.vals[fv['n']] = b
+        vc.inlined.add(callee)
+        self.top.recover_val = recover_val
+        rets = sub.run([], self.st, self.reach)
+        self.top.recover_val = None
+        if not rets:
+            vc.assume('false', self.reach)
+            return
+        if len(rets) == 1:
+            self.st = rets[0][2]
+        else:
+            self.st = self.merge_states(9500 + k, [r[0] for r in rets], [r[2] for r in rets])
+
+    def fork_panic(self, what, line):
+        """a call that may panic inside a function whose deferred closure recovers"""
+        vc = self.vc
+        p = vc.declare(self.nm('panics'), 'Bool')
+        reach0, st0 = self.reach, self.st
+        self.reach = vc.define(self.nm('panic$path'), 'Bool', and_(reach0, p))
+        self.st = st0.copy()
+        rv = vc.declare(self.nm('panic$value'), 'Any')
+        vc.assume(not_(eq(rv, 'a.nil')), self.reach)
+        self.run_deferred(V(rv, 'Any', 'interface{}'))
+        self.panic_edges.append((self.reach, self.st))
+        self.reach = vc.define(self.nm('no$panic'), 'Bool', and_(reach0, not_(p)))
+        self.st = st0
 
     def i_Go(self, ins, blk):
         raise Unsupported('go statement')
@@ -1301,6 +1383,11 @@ class Exec:
             return models.MODELS[callee]['fn'](self, ins)
         actuals = [self.op(a) for a in self.call_actuals(call)]
         self.callsite_obligations(ins, callee, actuals)
+        if not call['invoke'] and 'static' not in call and call['fn'].get('k') != 'builtin':
+            fv = self.op(call['fn'])
+            if isinstance(fv, V) and fv.sort == 'Int':
+                self.oblige('nil', 'call of nil function value', self.reach, not_(eq(fv.term, '0')), ['C03'], line)
+                vc.assume(not_(eq(fv.term, '0')), self.reach)
         if call['invoke']:
             recv = actuals[0]
             self.oblige('nil', 'method call on nil interface', self.reach, not_(eq(recv.term, 'a.nil')), ['C03'], line)
@@ -1316,11 +1403,15 @@ class Exec:
             return self.call_inline(ins, callee, cc, actuals)
         # unknown callee: everything it could write is havocked, it may panic
         vc.havoc_calls.add(callee or 'dynamic call')
-        self.oblige('callee-may-panic', 'call of %s (no contract)' % short_fn(self.prog, callee or 'function value'), self.reach, 'false', ['C03'], line)
+        fork = self.top is self and self.recovers()
+        if not fork:
+            self.oblige('callee-may-panic', 'call of %s (no contract)' % short_fn(self.prog, callee or 'function value'), self.reach, 'false', ['C03'], line)
         self.st.havoc_all()
         a = vc.declare(self.nm('alloc'), 'Int')
         vc.assume('(>= %s %s)' % (a, self.st.alloc), self.reach)
         self.st.alloc = a
+        if fork:
+            self.fork_panic(callee or 'function value', line)
         self.set_results(ins, self.fresh_results(ins))
 
     def callsite_obligations(self, ins, callee, actuals):
@@ -1416,8 +1507,12 @@ class Exec:
             ev = SpecEval(vc, cc.pkg, env, pre, None)
             ev.mode, ev.guard = 'assume', self.reach
             vc.assume(ev.eval(cl.expr).term, self.reach)
+        may_panic_fork = False
         if not cc.nopanic and not cc.trusted:
-            self.oblige('callee-may-panic', 'call of %s (contract lacks nopanic)' % cname, self.reach, 'false', ['C03'], line, site=site)
+            if self.top is self and self.recovers():
+                may_panic_fork = True
+            else:
+                self.oblige('callee-may-panic', 'call of %s (contract lacks nopanic)' % cname, self.reach, 'false', ['C03'], line, site=site)
         # recursion: measure must decrease
         same_group = (self.top.contract is not None and cc.recgroup is not None and cc.recgroup == self.top.contract.recgroup)
         if cf is not None and (callee == self.top.f.name or same_group) and self.top.contract is not None:
@@ -1448,6 +1543,11 @@ class Exec:
         a = vc.declare(self.nm('alloc'), 'Int')
         vc.assume('(>= %s %s)' % (a, pre.alloc), self.reach)
         post.alloc = a
+        if may_panic_fork:
+            # the panic path sees the callee's possible writes but none of its postconditions
+            self.st = post
+            self.fork_panic(cname, line)
+            post = self.st
         rs = self.fresh_results(ins)
         renv = dict(env)
         if len(rs) >= 1:
